@@ -107,6 +107,7 @@ func registerExtlib(ex *Executor) {
 	I := ex.Intr
 	registerPool(ex)
 	registerFS(ex)
+	registerCrypto(ex)
 	I["(*bytes.Buffer).Bytes"] = func(ex *Executor, st *State, cc *CallCtx, args []Val) (Val, ctl) {
 		b := ex.bufAt(st, args[0].(Ptr))
 		return BytesV{S: b.S, Nil: smt.False, Src: args[0].(Ptr), Ver: b.Ver}, cNext
